@@ -59,6 +59,25 @@ def gen_version(r, ver, rich):
         desc[n] = ("func", n, None)
     desc["Dm"] = ("class", None, {"m": "method", "s": "static", "c": "clsm"}, None)
     classes = []
+    # module-level dunder names of the SOURCE (not of the import system): they appear, change and disappear
+    tail = []
+    if r.random() < .4:
+        tail.append("__version__ = '1.%d'" % pick(0, ver))
+        desc["__version__"] = ("data",)
+    if r.random() < .35:
+        tail += ["def __getattr__(name):",
+                 "    if name.startswith('lazy_'): return ('lazy', name, %d)" % ver,
+                 "    raise AttributeError(name)"]
+        desc["__getattr__"] = ("func", "__getattr__", None)
+    if r.random() < .25:
+        tail.append("def __dir__(): return ['dflt', 'kwd', 'v%d']" % ver)
+        desc["__dir__"] = ("func", "__dir__", None)
+    if r.random() < .3:
+        tail.append("__x__ = %d" % (8000 + ver))
+        desc["__x__"] = ("data",)
+    if r.random() < .4:
+        tail.append("__all__ = %r" % (r.sample(["dflt", "kwd", "ann", "docf", "Dm", "mk"], r.randint(1, 4)),))
+        desc["__all__"] = ("list",)
     for n in NAMES:
         if r.random() < .22:
             continue
@@ -70,6 +89,12 @@ def gen_version(r, ver, rich):
             mem, body = {}, []
             if r.random() < .3:
                 body.append('    """doc of %s v%d"""' % (n, ver))
+            if r.random() < .3:
+                body.append("    def __repr__(self): return '%s<%d>'" % (n, ver))
+            if r.random() < .25:
+                body.append("    def __len__(self): return %d" % (10 + ver))
+            if r.random() < .25:
+                body.append("    __tag__ = %d" % (900 + ver))
             for m in ["m1", "m2", "s", "c", "p", "x"]:
                 if r.random() < .35:
                     continue
@@ -121,7 +146,7 @@ def gen_version(r, ver, rich):
             lines.append("l1 = [1, %d]" % ver)
             desc[n] = ("list",)
         elif n == "dd":
-            funcs = [x for x, d in desc.items() if d[0] == "func" and d[2] is None]
+            funcs = [x for x, d in desc.items() if d[0] == "func" and d[2] is None and not x.startswith("__")]
             ent = ["'v': %d" % ver]
             if funcs:
                 ent.append("'fn': %s" % r.choice(funcs))
@@ -148,7 +173,7 @@ def gen_version(r, ver, rich):
                 lines.append("%s = mk(%d)" % (n, cv))
                 desc[n] = ("func", "inner", ("int", cv, "mk"))
             elif k < .75:
-                funcs = [x for x, d in desc.items() if d[0] == "func" and d[2] is None]
+                funcs = [x for x, d in desc.items() if d[0] == "func" and d[2] is None and not x.startswith("__")]
                 if funcs:
                     t = r.choice(funcs)
                     lines.append("%s = mk2(%s)" % (n, t))
@@ -167,6 +192,7 @@ def gen_version(r, ver, rich):
                 desc[n] = ("data",)
     for n in ("mk", "mk2", "deco"):
         desc[n] = ("func", n, None)
+    lines += tail
     return "\n".join(lines) + "\n", desc
 
 
@@ -318,12 +344,7 @@ class Snap(object):
             recs[a] = None
             t = type(o)
             if t is types.FunctionType:
-                cl = []
-                for c in (o.__closure__ or ()):
-                    try:
-                        cl.append(ref(c.cell_contents))
-                    except ValueError:
-                        raise Unsupported("empty cell")
+                cl = [ref(c) for c in (o.__closure__ or ())]
                 md = o.__module__ if isinstance(getattr(o, "__module__", None), str) else None
                 recs[a] = ["func", o.__name__, md, ref(o.__code__), ref(o.__defaults__), ref(o.__kwdefaults__),
                            ref(o.__doc__), ref(o.__annotations__), ref(o.__dict__), cl, list(o.__code__.co_freevars)]
@@ -350,6 +371,11 @@ class Snap(object):
                     recs[a] = ["dict", [[k, ref(v)] for k, v in o.items()]]
             elif t is types.MethodType:
                 recs[a] = ["method", ref(o.__func__), ref(o.__self__)]
+            elif t is types.CellType:
+                try:
+                    recs[a] = ["cell", ref(o.cell_contents)]
+                except ValueError:
+                    raise Unsupported("empty cell")
             elif t is types.ModuleType and any(o is m for m in self.modules):
                 recs[a] = ["module", ref(o.__dict__)]
             elif t is staticmethod:
@@ -375,15 +401,23 @@ class Snap(object):
 
 
 def bases_assignable(oldc, newc):
-    try:
-        ns = {}
-        if "__slots__" in oldc.__dict__:
-            ns["__slots__"] = oldc.__dict__["__slots__"]
-        clone = type(oldc.__name__, oldc.__bases__, ns)
-        clone.__bases__ = newc.__bases__
-        return True
-    except TypeError:
-        return False
+    """Would CPython accept the __bases__ assignment of _livepatch__class?  Tried on a clone of the old class, with
+    the new bases and with the new bases mapped to their old counterparts (same module and name); None when the
+    two answers differ (the case is then outside the oracle's reach)."""
+    def attempt(bases):
+        try:
+            ns = {}
+            if "__slots__" in oldc.__dict__:
+                ns["__slots__"] = oldc.__dict__["__slots__"]
+            clone = type(oldc.__name__, oldc.__bases__, ns)
+            clone.__bases__ = bases
+            return True
+        except TypeError:
+            return False
+    by_name = {(b.__module__, b.__name__): b for b in oldc.__bases__}
+    mapped = tuple(by_name.get((b.__module__, b.__name__), b) for b in newc.__bases__)
+    r1, r2 = attempt(newc.__bases__), attempt(mapped)
+    return r1 if r1 == r2 else None
 
 
 # ---------------------------------------------------------------------------------------------
@@ -396,13 +430,20 @@ def _call(f, *a):
         r = f(*a)
         return '<function %s>' % r.__qualname__ if isinstance(r, types.FunctionType) else repr(r)
     except Exception as e: return 'EXC ' + type(e).__name__
+_STD_CLASS_DUNDERS = {'__module__', '__dict__', '__weakref__', '__doc__', '__qualname__', '__slots__', '__annotations__',
+                      '__firstlineno__', '__static_attributes__'}
 def _members(c, inst):
     out = {}
     names = set()
     for k in c.__mro__:
         if k is not object: names |= set(vars(k))
     for k in sorted(names):
-        if k.startswith('__'): continue
+        if k in _STD_CLASS_DUNDERS: continue
+        if k.startswith('__'):
+            # a user-defined special member (class-level dunder): presence + what it gives
+            v = getattr(inst if inst is not None else c, k, 'MISSING')
+            out[k] = (_call(v) if callable(v) and k not in ('__init__', '__new__') else repr(v)) if not isinstance(v, type) else 'class'
+            continue
         try: v = getattr(inst if inst is not None else c, k)
         except Exception as e:
             out[k] = 'EXC ' + type(e).__name__; continue
@@ -429,11 +470,25 @@ def obs_val(v, depth=0):
         sl = [(k, repr(getattr(v, k))) for k in getattr(v, '__slots__', ()) if hasattr(v, k)]
         return ['inst', type(v).__name__, sorted((k, repr(x)) for k, x in d.items()) if isinstance(d, dict) else None, sl, _members(type(v), v)]
     return ['data', repr(v)]
+# module attributes set by the import system / by xreload itself, not by the source
+LOADER_DUNDERS = ('__builtins__', '__cached__', '__file__', '__loader__', '__name__', '__package__', '__spec__',
+                  '__doc__', '__path__', '__loadtime__')
 def observe(mod):
     out = {}
     for n, v in sorted(vars(mod).items()):
-        if n.startswith('__'): continue
+        if n in LOADER_DUNDERS: continue
         out[n] = obs_val(v)
+    # behaviour that module-level dunders govern: the star import, PEP 562 __getattr__ / __dir__
+    ns = {}
+    try:
+        exec('from %s import *' % mod.__name__, ns)
+        out['<star import>'] = sorted(k for k in ns if k != '__builtins__')
+    except Exception as e:
+        out['<star import>'] = 'EXC ' + type(e).__name__
+    try: out['<lazy attribute>'] = repr(getattr(mod, 'lazy_probe'))
+    except Exception as e: out['<lazy attribute>'] = 'EXC ' + type(e).__name__
+    try: out['<dir>'] = sorted(k for k in dir(mod) if k not in LOADER_DUNDERS)
+    except Exception as e: out['<dir>'] = 'EXC ' + type(e).__name__
     dn = {}
     for k in ('__package__', '__name__', '__doc__'):
         dn[k] = repr(getattr(mod, k, 'MISSING'))
@@ -580,8 +635,12 @@ def impl_case(c):
                 olds = [o for o in snap.keep if isinstance(o, type) and o.__dict__.get("__module__") == modname]
                 for o1 in olds:
                     for o2 in olds:
-                        if o1 is not o2 and o1.__name__ == o2.__name__ and bases_assignable(o1, o2):
-                            pairs.append([snap.addr(o1), snap.addr(o2)])
+                        if o1 is not o2 and o1.__name__ == o2.__name__:
+                            ok = bases_assignable(o1, o2)
+                            if ok is None:
+                                raise Unsupported("__bases__ assignment oracle undecided")
+                            if ok:
+                                pairs.append([snap.addr(o1), snap.addr(o2)])
                 box["bases_ok"] = pairs
                 box["nkeep"] = len(snap.keep)
             except Unsupported as e:
@@ -616,7 +675,7 @@ def impl_case(c):
         cur = dict(vars(mod))
         ident = {}
         for n in set(captured) | set(cur):
-            if n.startswith("__"):
+            if n in obs_ns["LOADER_DUNDERS"]:
                 continue
             if n not in cur:
                 ident[n] = "deleted"
@@ -628,7 +687,7 @@ def impl_case(c):
         out["repointed"] = sorted(n for n, v in cur.items() if isinstance(v, type) and captured.get(n) is v and
                                   any(getattr(b, "__module__", None) == name and cur.get(b.__name__) is not b for b in v.__bases__))
         out["via_old_refs"] = {n: obs_ns["obs_val"](v) for n, v in captured.items()
-                               if not n.startswith("__") and ident.get(n) == "kept"}
+                               if n not in obs_ns["LOADER_DUNDERS"] and ident.get(n) == "kept"}
         out["after"] = obs_ns["observe"](mod)
         out["registry_is_module"] = sys.modules.get(name) is mod
         env = {"PATH": os.environ.get("PATH", "/usr/bin:/bin"), "PYTHONDONTWRITEBYTECODE": "1", "PYTHONHASHSEED": "0", "LC_ALL": "C.UTF-8"}
@@ -689,6 +748,8 @@ def c_obj(r, K):
         return "OInst %s %s %s %s" % (N(r[1]), cm.copt(r[2], N), cm.copt(r[3], lambda s: L([N(K[k]) for k in s])), kv(r[4]))
     if r[0] == "method":
         return "OMethod %s %s" % (N(r[1]), N(r[2]))
+    if r[0] == "cell":
+        return "OCell %s" % N(r[1])
     if r[0] == "module":
         return "OModule %s" % N(r[1])
     if r[0] == "static":
@@ -839,17 +900,13 @@ def oracle_case(ctx, c, im):
         elif want == "kept":
             if got != "kept":
                 ctx.violation("identity_kept", c, "%s is %s although name, closure shape, slots and bases are unchanged" % (n, got))
-            elif n in stale_classes(c) or any(resolve(c["nd"], n)[0] == "class" and k in stale_classes(c) for k in [n]):
-                pass
-            elif im["via_old_refs"].get(n) != fresh["names"].get(n) and is_stale_function_cell(n, c):
-                ctx.known_hit("C16-b", "%r keeps its identity but closes over a stale function: a cell of an updatable type is assumed patched, the result of the nested livepatch is ignored" % n)
             elif im["via_old_refs"].get(n) != fresh["names"].get(n):
                 ctx.violation("behaves_as_new_source", c, {"name": n, "via_old_reference": im["via_old_refs"].get(n), "fresh_import": fresh["names"].get(n)})
         elif want == "f20":
             if got != "kept":
                 ctx.known_hit("F20", "a closure cell of %r holds a different plain value: the function is replaced, references captured earlier keep the old behaviour" % n)
     for n in im.get("repointed", []):
-        ctx.known_hit("C16-e", "class %r keeps its identity but its __bases__ now point at the scratch module's base class: issubclass(m.%s, m.<base>) is False" % (n, n))
+        ctx.violation("class_bases_identity", c, "class %r keeps its identity but its __bases__ point at the scratch module's base class: issubclass(m.%s, m.<base>) is False" % (n, n))
     # names
     if set(im["after"]["names"]) != set(fresh["names"]):
         ctx.violation("dict_shape", c, {"after_reload": sorted(im["after"]["names"]), "fresh_import": sorted(fresh["names"])})
@@ -871,8 +928,6 @@ def oracle_case(ctx, c, im):
 
 
 def classify_namespace_difference(n, a, b, c):
-    if is_stale_function_cell(n, c):
-        return "C16-b stale function cell"
     return None
 
 
@@ -904,6 +959,9 @@ def compare(ctx, cases, impl, index, model):
             K = im["_K"]
             real_out = "done" if im["err"] is None else "raise"
             ctx.bump("model_outcome:" + mv["outcome"])
+            ctx.bump("wf_heap:" + str(mv["wf"]).lower())
+            if mv["wf"] is not True:
+                ctx.disagreement("hypothesis: the snapshot heap is well-formed (Wf.wf_heap)", c, "snapshot", mv["wf"])
             if mv["outcome"] == "unsupported":
                 ctx.bump("model:unsupported")
             elif mv["outcome"] != real_out:
@@ -946,7 +1004,7 @@ def compare(ctx, cases, impl, index, model):
 
 
 def run(ctx):
-    n = int(os.environ.get("VERIF_C16_N", 200 if ctx.quick else 6000))
+    n = int(os.environ.get("VERIF_C16_N", 160 if ctx.quick else 6000))
     ctx.coverage["rule"] = (
         "one case = a generated (old, new) pair of module versions (plain / closure-made / decorated / aliased "
         "functions with defaults, docs and attributes; classes with methods, static and class methods, properties, "
@@ -963,6 +1021,7 @@ def run(ctx):
         "CPython's acceptance of `oldclass.__bases__ = newclass.__bases__` is an oracle (evaluated on a clone of the old class)",
         "'observationally equal to a fresh import' is NOT proved: it is decided by this correspondence and the behavioural oracle only",
         "ids of transient objects are assumed not to be recycled into the livepatch cache / visit stack during one reload",
+        "every snapshot heap satisfies the well-formedness checker Wf.wf_heap (unique addresses, stored addresses allocated, kinds consistent); evaluated in the kernel on every case",
     ]
     ctx.notes["trusted_base"] = ["harness snapshot of the CPython object graph (harness/c16.py Snap)"]
     cm.check_anchors(ctx, ANCHORS)
